@@ -12,6 +12,23 @@ _real_isinstance = builtins.isinstance
 _real_len = builtins.len
 
 
+LIB_RAISED = "the library raised on an input the harness treats as valid"
+_real_str = str
+
+
+def raised_in_library(e):
+    """does the innermost frame of the traceback belong to the tree under analysis (and not to the harness / engine)?"""
+    import os
+    repo = os.path.realpath(os.environ.get("VERIF_REPO", "/repo")).rstrip("/") + "/"
+    tb, last = e.__traceback__, None
+    while tb is not None:
+        fn = os.path.realpath(tb.tb_frame.f_code.co_filename)
+        if fn.startswith(repo):
+            last = fn
+        tb = tb.tb_next
+    return last is not None
+
+
 class PathAbort(BaseException):
     """assume() failed on this path: the path is outside the harness' precondition"""
 
@@ -386,6 +403,13 @@ class Ctx:
             except (EngineLimit, PathTimeout):
                 self.solver.pop()
                 raise
+            except Exception as e:  # noqa: BLE001
+                # an ordinary exception that escapes from the library on an input the harness hands over as valid (outside
+                # call()): on the unchanged tree this never happens; on a changed tree it is a finding, replayed like any other
+                if not raised_in_library(e):
+                    self.solver.pop()
+                    raise
+                self.fail(LIB_RAISED, "%s: %s" % (type(e).__name__, _real_str(e)[:120]))
             if not aborted and not self._path_failed and _real_len(self.samples) < 3 \
                     and self.stats.paths % self.sample_every == 0 and self.inputs:
                 try:
